@@ -1,4 +1,5 @@
 import EmsModel.Core.Polygons
+import EmsModel.Core.GeomBox
 import EmsModel.Core.Proto
 /-
 Core/GeomProto.lean — parsing / printing of geometry values for the line protocol and the
@@ -144,11 +145,30 @@ def stepCentres (conv : String) (args : List String) : String :=
     | _, _, _ => "BAD"
   | _ => "BAD"
 
+/-- `cf1dgeom lon=… lat=… [lonb=a:b,… latb=…]` → `box minx,miny,maxx,maxy` when `CFGrid1D.geometry` answers with
+the box of its bounds, `union` when it falls back to the union of the cell polygons -/
+def stepCf1dGeom (args : List String) : String :=
+  let r : Option (Option (Rat × Rat × Rat × Rat)) := do
+    let lon ← parseRats? (← kv args "lon")
+    let lat ← parseRats? (← kv args "lat")
+    let lonb ← match kv args "lonb" with
+      | none | some "-" => midBounds lon
+      | some s => parsePairs? s
+    let latb ← match kv args "latb" with
+      | none | some "-" => midBounds lat
+      | some s => parsePairs? s
+    some (cf1dGeometryBox lonb latb)
+  match r with
+  | none => "ERR"
+  | some none => "union"
+  | some (some b) => s!"box {showBBox (some b)}"
+
 /-- geometry operations common to several drivers; `none` = not one of them -/
 def step? (ws : List String) : Option String :=
   match ws with
   | "polys" :: conv :: args => some (stepPolys conv args)
   | "centres" :: conv :: args => some (stepCentres conv args)
+  | "cf1dgeom" :: args => some (stepCf1dGeom args)
   | ["valid", ring] =>
     some (match parseRing? ring with
       | some p => if ringValid p then "1" else "0"
